@@ -9,6 +9,22 @@ CHECKS = {
     technique='exhaustive token-string enumeration + Hypothesis random grammar sentences and one-token mutations, differential against a frozen reference parser',
     text='Bounded-exhaustive plus random differential testing of the shipped LALR parser against an independent precedence-climbing reference parser over a frozen copy of the grammar and operator table: every token-kind string up to length 4 (quick) / 5 (thorough) over a 33-kind alphabet, length 5/6 over reduced alphabets, an operator-pair matrix, and Hypothesis-generated deep sentences with one-token mutations. Exploration: exhaustive within the stated length bound, sampled beyond it.',
     note='Trusted: the reference lexer/parser in sqv/spec (frozen reading of the published grammar and operator table, cross-checked on 39M token strings); exhaustive claims are over token kinds with canonical lexemes.'),
+ 'C01': dict(
+    technique='Hypothesis program generation + metamorphic relations over budgets (every N in 1..K+2), run-time monitor of charges/node entries, multi-eval sessions',
+    text='Generated programs (typed statements, probe templates with lambdas driven by map/filter/reduce/sorted, recursion, propagating/swallowing/nesting host callbacks, ast_names bodies) are run unbounded to learn K and then under every budget N in 1..K+2 (boundary+drawn budgets when K>60); a monitor wrapped around Op.eval and every node class counts charges and entries. Checked: at most N-1 operations take effect, ops-limit ParserError exactly at the N-th node evaluation quoting N, probe log and names are the prefix state before operation N, monotone in N, sessions with lambdas stored by earlier evals. Exploration by random generation; exhaustive only over budgets per program.',
+    note='Trusted: the harness monitor (wrapping Op.eval/subclass eval at run time); prefix relations are not asserted when a swallowing host is on the call path.'),
+ 'C02': dict(
+    technique='Hypothesis builtin sweep over the live function table with shape tables and hostile pool; deep type-walk oracle on every node result; vetoing sys.addaudithook',
+    text='Every builtin in the live table is called with typed and hostile arguments (attribute/format/path-like strings, callables, nested containers, tuples), composed and embedded in program forms, and used as a value; typed programs as well. Every node result, the result and the final names are walked for anything other than plain data, table entries and program lambdas; an audit hook flags and vetoes file/process/network/import/exec/compile events during eval. Exploration.',
+    note='Trusted: CPython audit events as the observation point for I/O and dynamic code; lazy imports done by libraries for themselves are tallied only.'),
+ 'C07': dict(
+    technique='Hypothesis type-directed program generator, differential against an independent reference interpreter (value, names, error class, op count)',
+    text='Type-directed random programs over every operator, statement form, slice form and deterministic builtin are evaluated by the implementation and by an independent reference interpreter run on the parsed tree; outcome class, canonical value (exact Decimal representation), host names afterwards and the number of charged operations must agree. Exploration.',
+    note='Trusted: sqv/spec/refsem.py as the reading of the documented semantics; Decimal arithmetic itself is delegated to Python decimal (C08 covers exactness); cases outside the reference domain are discarded and counted.'),
+ 'C13': dict(
+    technique='Hypothesis sweep of every non-mutator in the live table with shape tables; deep before/after snapshot oracle (structure, order, types, identity)',
+    text='Every non-mutating builtin in the live table is called directly and through eval (alone, piped, inside map, with host-supplied objects) with arguments from per-builtin shape tables; a deep snapshot including identities of nested containers must be unchanged afterwards. Exploration.',
+    note='Trusted: the list of seven declared mutators from the property statement.'),
 }
 NOT_YET = 'check not built yet (work in progress; will be claimed once its check is registered)'
 
